@@ -15,7 +15,7 @@ from vlib.framework import Engine, RunResult
 from vlib import progs, decoders
 
 TYPES = ["hex", "srec", "elf", "bin", "wdc", "uf2", "amiga", "macho"]
-DIMS = ["clock", "heap", "stack", "chunk", "flags", "name", "type", "history-main", "history-api", "repeat", "heap+stack+clock"]
+DIMS = ["clock", "heap", "stack", "chunk", "flags", "name", "type", "history-main", "history-api", "repeat", "heap+stack+clock", "build"]
 
 
 def strip_s0(b):
@@ -28,9 +28,10 @@ class C13(Engine):
     quick_budget = 45
     quick_runs = 9000
     thorough_budget = 900
+    variants = ("small",)
     rule = ("run i = valid program P (corpus instructions of 45 CPUs or data directives for the other 23, with macros/.if/.repeat/"
             ".include/.binfile) + reference execution R0 + 4-10 perturbed executions of the same P, each changing a seeded subset of: "
-            "simulated clock (incl. across midnight/year), heap fill and stack fill (0x00/0xff/0xa5/seeded), read chunking, reporting flags "
+            "simulated clock (incl. across midnight/year), heap fill and stack fill (0x00/0xff/0xa5/seeded), read chunking, build variant (64 KiB pages and 32 KiB pools vs 256-byte pages and 1-4 KiB pools), reporting flags "
             "(-l -q -dump_symbols -dump_macros), output name/directory/extension, output type (decoded images compared), in-process history "
             "(0-3 other programs - failing ones included - assembled first in the same process through naken_asm's main(); assemble_code() "
             "called repeatedly on one UtilContext), plain repetition.  Oracle: byte equality of the output file (S0 header masked when the "
@@ -90,13 +91,13 @@ class C13(Engine):
         files = progs.fs_for(prog)
         digests = []
 
-        def asm(argv, env=None, extra_files=None, faults=()):
+        def asm(argv, env=None, extra_files=None, faults=(), build=None):
             f = dict(files)
             if extra_files:
                 f.update(extra_files)
             e = {"clock0": 1291231234, "event_ceiling": 5000000}
             e.update(env or {})
-            o = ex.call(build_request(MODE_ASM, ["naken_asm"] + argv, f, faults, env=e, cpu_ms=10000))
+            o = self.variant(ex, build).call(build_request(MODE_ASM, ["naken_asm"] + argv, f, faults, env=e, cpu_ms=10000))
             res.absorb(o)
             digests.append(o.digest())
             return o
@@ -201,8 +202,8 @@ class C13(Engine):
                              history=[(h["cpu"], h["code"][:300]) for h in p["history"]])
                 res.probe("dim:history-api")
                 continue
-            o = asm(argv, env, extra)
-            if env:
+            o = asm(argv, env, extra, build="small" if dim == "build" else None)
+            if env or dim == "build":
                 res.nontrivial = True
             if o.kind() != "exit":
                 res.probe("perturbed_abnormal_termination_left_to_C16")
